@@ -19,3 +19,12 @@ Example C01_parser_nonvacuous :
   segs_ok ascii_wordc demo_rule /\
   (forall c, In c [ch_slash; ch_gt; ch_rbrace; ch_dot; ch_colon; ch_lpar] -> ascii_wordc c = false).
 Proof. split; [exact demo_rule_ok | exact ascii_wordc_delims]. Qed.
+
+(* The parser never hangs: for every text and every interpretation of \w the
+   explicit fuel of the model (length + 1 iterations) is never exhausted, i.e.
+   each iteration of Parser._iter_parse consumes at least one character. *)
+From Verif Require Import proofs.C01_parser_total.
+Theorem C01_parser_terminates :
+  forall (wordc : N -> bool) (s : str), parse wordc s <> inl EFuel.
+Proof. exact parse_total. Qed.
+Print Assumptions C01_parser_terminates.
